@@ -279,6 +279,17 @@ def op_base_local(op):
     return None if p is None else p["l"]
 
 
+def rv_operands(rv):
+    """operand dicts of an rvalue (the 'op' key of bin/un rvalues is the operator name)"""
+    out = []
+    for k in ("op", "a", "b"):
+        v = rv.get(k)
+        if isinstance(v, dict):
+            out.append(v)
+    out += rv.get("fields", [])
+    return out
+
+
 def op_const(op):
     return op.get("c") if op else None
 
@@ -472,6 +483,8 @@ class Body:
             for i, b in enumerate(self.blocks):
                 for j, s in enumerate(b["s"]):
                     if s["k"] in ("assign", "setdiscr"):
+                        if "*" in s["lhs"].get("p", []):
+                            continue  # store through a pointer: not a definition of the pointer
                         d[s["lhs"]["l"]].append(("stmt", i, j, s))
                 t = b["t"]
                 if t["k"] == "call":
@@ -479,7 +492,7 @@ class Body:
             self._defs = d
         return self._defs
 
-    def origins(self, op_or_local, through_calls=True, max_nodes=4000, stop_call=None, mut_ref_args=True):
+    def origins(self, op_or_local, through_calls=True, max_nodes=4000, stop_call=None, mut_ref_args=False):
         """Flow-insensitive backward slice. Returns a set of origin tuples:
              ('param', i)        function parameter i (1-based local index)
              ('const', repr)     constant (val or cdef)
@@ -543,7 +556,8 @@ class Body:
                     rv = s["rv"]
                     k = rv["k"]
                     if k in ("use", "cast", "un", "repeat"):
-                        push_op(rv.get("op") or rv.get("a"))
+                        for o in rv_operands(rv):
+                            push_op(o)
                     elif k == "bin":
                         push_op(rv["a"])
                         push_op(rv["b"])
@@ -619,14 +633,7 @@ class Body:
                 if s["k"] != "assign":
                     continue
                 rv = s["rv"]
-                ops = []
-                if "op" in rv:
-                    ops.append(rv["op"])
-                if "a" in rv:
-                    ops.append(rv["a"])
-                if "b" in rv:
-                    ops.append(rv["b"])
-                ops += rv.get("fields", [])
+                ops = rv_operands(rv)
                 hit = any(has(o) for o in ops)
                 if "pl" in rv and rv["pl"]["l"] == local:
                     hit = True
@@ -659,13 +666,8 @@ class Body:
                         continue
                     rv = s["rv"]
                     srcs = []
-                    for key in ("op", "a", "b"):
-                        if key in rv:
-                            bl = op_base_local(rv[key])
-                            if bl is not None:
-                                srcs.append(bl)
-                    for fop in rv.get("fields", []):
-                        bl = op_base_local(fop)
+                    for o in rv_operands(rv):
+                        bl = op_base_local(o)
                         if bl is not None:
                             srcs.append(bl)
                     if "pl" in rv:
